@@ -6,6 +6,7 @@ from pyvc.engine import Unit, Obligation, outcome_of, concretise
 from .common import func, cls, sym_bytes, sym_bytes_atleast
 from .apiops import ops, run_op, interp_with_contracts, op_witness
 from .api_common import API, reply
+from .common import frame_ok as _frame_ok
 
 PROP = "C09"
 MIN_OBLIGATIONS = 500
@@ -114,6 +115,10 @@ def units(tier):
                     obs = [Obligation(base + "/returns_or_RuntimeError", ctx, ok, note="" if ok else f"escaping {ob[1].cls}")]
                     if isinstance(lc, int) and lc == 0:
                         obs.append(Obligation(base + "/empty_reply_is_not_success", ctx, ob[0] == "exc" and ob[1].cls == "RuntimeError"))
+                    # 'at any step' of a longer exchange on the same object: the operation leaves nothing behind that a later
+                    # operation reads (otherwise what was proved from a fresh object says nothing about the second call)
+                    obs.append(Obligation(base + "/assigns_nothing", ctx, _frame_ok(ctx)[0],
+                                          note=str([(type(o).__name__, a) for o, a in ctx.ghost.heap_writes][:3])))
                     return obs
                 tag = f"ge{lc[1]}" if isinstance(lc, tuple) else str(lc)
                 nm = f"{qname}_{'l12' if r1 != 5 else 'l5'}_{tag}"
@@ -129,7 +134,9 @@ def units(tier):
             base = f"{PROP}/{op.name}/empty_login_reply"
             return [Obligation(base + "/raises_RuntimeError", ctx, ob[0] == "exc" and ob[1].cls == "RuntimeError",
                                note=str(ob[1]) if ob[0] == "exc" else "returned normally"),
-                    Obligation(base + "/no_further_frame", ctx, len(run["writes"]) == 1, note=f"{len(run['writes'])} frames written")]
+                    Obligation(base + "/no_further_frame", ctx, len(run["writes"]) == 1, note=f"{len(run['writes'])} frames written"),
+                    Obligation(base + "/assigns_nothing", ctx, _frame_ok(ctx)[0],
+                               note=str([(type(o).__name__, a) for o, a in ctx.ghost.heap_writes][:3]))]
         u[f"{name}_empty_login"] = Unit(f"{name}_empty_login", PROP, fn, functions=[op.qual()], witness=op_witness(PROP, op, 0))
 
     def breeze_empty(ip, ctx):
@@ -206,4 +213,5 @@ def search_cases(o, seed):
 def native_cases(tier, seed):
     return [{"prop": PROP, "kind": "sweep", "inputs": {"seed": seed, "n": 3000 if tier == "quick" else 100000}},
             {"prop": PROP, "kind": "prefixes", "inputs": {}},
-            {"prop": PROP, "kind": "breeze_steps", "inputs": {"seed": seed, "n": 150 if tier == "quick" else 5000}}]
+            {"prop": PROP, "kind": "breeze_steps", "inputs": {"seed": seed, "n": 150 if tier == "quick" else 5000}},
+            {"prop": PROP, "kind": "op_sequences", "inputs": {"seed": seed, "n": 150 if tier == "quick" else 5000}}]
